@@ -87,14 +87,14 @@ func c20Diff(c *core.Ctx) {
 		return
 	}
 	cons := fname(c20sv, "ObjectRegistry", "applyConfig")
-	entF := structField(c, c20sv, "ObjectRegistry", "entities")
+	entF := c20EntitiesField(c, "ObjectRegistry")
 	evF := map[string]*types.Var{
 		"deleted": structField(c, c20sv, "ObjectEntityWatcherEvent", "Delete"),
 		"created": structField(c, c20sv, "ObjectEntityWatcherEvent", "Create"),
 		"updated": structField(c, c20sv, "ObjectEntityWatcherEvent", "Update"),
 	}
-	wEntF := structField(c, c20sv, "ObjectEntityWatcher", "entities")
-	chanF := structField(c, c20sv, "ObjectEntityWatcher", "eventChan")
+	wEntF := c20EntitiesField(c, "ObjectEntityWatcher")
+	chanF := c20EventChanField(c)
 	if entF == nil || evF["deleted"] == nil || evF["created"] == nil || evF["updated"] == nil || wEntF == nil || chanF == nil {
 		return
 	}
@@ -191,9 +191,13 @@ func c20Diff(c *core.Ctx) {
 				gObj, _ := g.Info.Defs[gfd.Name].(*types.Func)
 				bv = nil
 				if idx >= 0 && gObj != nil {
-					for _, call := range calls(f.Body, true) {
-						if fo, ok := f.Callee(call).(*types.Func); ok && fo == gObj && idx < len(call.Args) {
-							bv = c20Var(f, call.Args[idx])
+					for _, h := range reach(entry, 3) {
+						for _, call := range calls(h.Body, true) {
+							if fo, ok := h.Callee(call).(*types.Func); ok && fo == gObj && idx < len(call.Args) {
+								if av := c20Var(h, call.Args[idx]); av != nil {
+									bv = c20ThroughResult(f, h, av)
+								}
+							}
 						}
 					}
 				}
@@ -946,4 +950,69 @@ func c20Bucket(f *flow.Func, e ast.Expr) *types.Var {
 		return v
 	}
 	return c20FieldOf(f, e)
+}
+
+// c20ThroughResult: v is a local of h. When h is not the diff function host and v is defined once
+// as the j-th result of a call to host (`deleted, created, updated := or.diffConfig(config)`), the
+// variable that host returns at position j in every return statement is the bucket; otherwise v.
+func c20ThroughResult(host, h *flow.Func, v *types.Var) *types.Var {
+	if h.Body == host.Body {
+		return v
+	}
+	hostFd, _ := host.Node.(*ast.FuncDecl)
+	if hostFd == nil {
+		return v
+	}
+	hostObj := host.Info.Defs[hostFd.Name]
+	for _, d := range c20Defs(h, h.Node, v) {
+		as, ok := d.stmt.(*ast.AssignStmt)
+		if !ok || len(as.Rhs) != 1 {
+			continue
+		}
+		call, ok := ast.Unparen(as.Rhs[0]).(*ast.CallExpr)
+		if !ok || h.Callee(call) != hostObj {
+			continue
+		}
+		j := -1
+		for i, l := range as.Lhs {
+			if c20Var(h, l) == v {
+				j = i
+			}
+		}
+		if j < 0 {
+			continue
+		}
+		var out *types.Var
+		same := true
+		c20SkipLits(hostFd.Body, func(n ast.Node) bool {
+			r, ok := n.(*ast.ReturnStmt)
+			if !ok {
+				return true
+			}
+			var rv *types.Var
+			if j < len(r.Results) {
+				rv = c20Var(host, r.Results[j])
+			} else if len(r.Results) == 0 && hostFd.Type.Results != nil {
+				// named results with a bare return
+				k := 0
+				for _, fld := range hostFd.Type.Results.List {
+					for _, id := range fld.Names {
+						if k == j {
+							rv, _ = host.Info.Defs[id].(*types.Var)
+						}
+						k++
+					}
+				}
+			}
+			if rv == nil || (out != nil && out != rv) {
+				same = false
+			}
+			out = rv
+			return true
+		})
+		if same && out != nil {
+			return out
+		}
+	}
+	return v
 }
